@@ -97,13 +97,90 @@ for _s in PAT_POOL:
     assert not any(c.isspace() for c in _s), _s
 
 
+# ------------------------------------------------------------------ size dimension (notes/SIZE_STRESS.md)
+# The specification is class-abstract: a pattern, a line body, a synopsis are opaque payloads, a list
+# of patterns / lines / paragraphs is a sequence of ANY length.  Its predictions are therefore
+# independent of lengths and counts by construction; the sizes live in the concretization (replay
+# leg: every STRESS_EVERY-th case gets one extra, size-stressed concretization) and in the recorded
+# traces (a fixed suite of extreme documents / line lists in every run plus random stressed ones).
+BOUNDS = [1, 2, 7, 8, 9, 15, 16, 17, 31, 32, 33, 63, 64, 65, 71, 72, 73, 79, 80, 81, 127, 128, 129, 255, 256, 257,
+          1023, 1024, 1025, 4095, 4096, 4097]
+BIG_BOUNDS = [8191, 8192, 8193, 65535, 65536, 65537]
+COUNTS = [0, 1, 2, 3, 9, 10, 11, 16, 17, 31, 32, 33, 99, 100, 101, 255, 256, 257]
+JOINED = [70, 71, 72, 73, 74, 75, 78, 79, 80, 81, 82, 254, 255, 256, 257, 258, 4094, 4095, 4096, 4097, 4098]
+STRESS_EVERY = 8
+PAT_CHUNKS = ["third-party/", "lib-compat/", "ab-cd/", "x-y-z/", "src/", "*.c", "docs-old/", "a?b/", "\\*-", "é-ü/"]
+TXT_CHUNKS = ["well-known ", "third-party ", "re-use ", "of ", "so-called ", "free-software; ", "x-y ", "Ünï-cödé ",
+              "a ", "non-infringement, ", "e-mail: "]
+
+
+def size_len(rng, cap=4097):
+    """heavy-tailed length that regularly hits the boundary neighbourhoods"""
+    pool = [b for b in BOUNDS if b <= cap]
+    if cap > 8000 and rng.random() < 0.04:
+        return rng.choice([b for b in BIG_BOUNDS if b <= cap])
+    if rng.random() < 0.75:
+        return rng.choice(pool[:max(1, min(len(pool), 23))])
+    return rng.choice(pool)
+
+
+def _cycled(rng, chunks, n):
+    order = list(chunks)
+    rng.shuffle(order)
+    out = []
+    size = 0
+    while size < n:
+        for c in order:
+            out.append(c)
+            size += len(c)
+            if size >= n:
+                break
+    return "".join(out)[:n]
+
+
+def sized_pattern(rng, n):
+    """a glob of exactly n characters, no white space, hyphens between letters all along"""
+    t = _cycled(rng, PAT_CHUNKS, n)
+    return "x" if t == "." else t
+
+
+def sized_text(rng, n):
+    """a line body of exactly n characters: starts with a non-blank, is not '.', no trailing blank,
+    hyphenated words all along"""
+    t = _cycled(rng, TXT_CHUNKS, n)
+    if t[-1].isspace():
+        t = t[:-1] + "x"
+    return "x" if t == "." else t
+
+
+def split_total(rng, total, n):
+    """n positive lengths whose blank-joined length is `total` (or the smallest possible)"""
+    total = max(total, 2 * n - 1)
+    room = total - (n - 1)
+    cuts = sorted(rng.sample(range(1, room), n - 1)) if n > 1 else []
+    return [b - a for a, b in zip([0] + cuts, cuts + [room])]
+
+
 class Conc:
     """choices made for one concretization: key -> string (kept for replay files)"""
 
-    def __init__(self, rng=None, canonical=False, choices=None):
+    def __init__(self, rng=None, canonical=False, choices=None, stress=False):
         self.rng = rng
         self.canonical = canonical
+        self.stress = stress
         self.c = dict(choices or {})
+
+    def pats(self, codes):
+        """the patterns of one Files field; size-stressed: joined length / single lengths at boundaries"""
+        if self.stress and codes and any("b:%d" % c not in self.c for c in codes):
+            rng = self.rng
+            if rng.random() < 0.5:
+                lens = split_total(rng, rng.choice(JOINED), len(codes))
+            else:
+                lens = [size_len(rng) for _ in codes]
+            for c, n in zip(codes, lens):
+                self.c.setdefault("b:%d" % c, sized_pattern(rng, n))
+        return [self.body(c) for c in codes]
 
     def get(self, key, make):
         if key not in self.c:
@@ -125,6 +202,10 @@ class Conc:
             if self.canonical:
                 f = CANON[part]
                 return f % ((code,) * f.count("%d"))
+            if self.stress:
+                if part == 1:
+                    return sized_pattern(self.rng, size_len(self.rng))
+                return sized_text(self.rng, size_len(self.rng, 257 if part in (5, 6) else 4097))
             return self.rng.choice(POOLS[part])
         return self.get("b:%d" % code, make)
 
@@ -155,7 +236,7 @@ def abs_line(s, it):
     if body == ".":
         return {"ind": n, "b": "dot", "id": []}
     parts = body.split(" ")
-    if len(parts) <= 12 and all(parts) and not any(ch.isspace() for p in parts for ch in p):
+    if len(parts) <= 400 and all(parts) and not any(ch.isspace() for p in parts for ch in p):
         return {"ind": n, "b": "txt", "id": [it(p) for p in parts]}
     return {"ind": n, "b": "txt", "id": [it(body)]}
 
@@ -574,7 +655,8 @@ def codec_concretize(case, conc):
         ind, b = e[0] // 10, e[0] % 10
         ws = conc.ws("p%d" % i, ind)
         if b == 2:
-            body = conc.get("t%d" % i, lambda: ("line %d" % (i + 1)) if conc.canonical else conc.rng.choice(CODEC_POOL))
+            body = conc.get("t%d" % i, lambda: ("line %d" % (i + 1)) if conc.canonical else (
+                sized_text(conc.rng, size_len(conc.rng, 70000)) if conc.stress else conc.rng.choice(CODEC_POOL)))
         else:
             body = "." if b == 1 else ""
         lines.append(ws + body)
@@ -612,7 +694,7 @@ def check_codec_case(case, conc, diag=None):
 def doc_concretize(case, conc):
     """(header, ops, expected document, document before the edit or None, edits or None)"""
     def para(p, k):
-        return {"kind": p["k"], "pats": [conc.body(c) for c in p["p"]],
+        return {"kind": p["k"], "pats": conc.pats(p["p"]),
                 "copy": conc.text(p["c"], "c%d" % k) if p["k"] == "Files" else None,
                 "syn": conc.line(p["l"]["s"], "s%d" % k), "text": conc.text(p["l"]["t"], "t%d" % k)}
 
@@ -632,7 +714,7 @@ def doc_concretize(case, conc):
     # printed by TLC is concretized to exactly the values the edit sets)
     ek = kof(case["pre"][e["i"] - 1]) if e["kind"] != "add" else 9
     if e["kind"] == "files":
-        ce = {"kind": "files", "i": e["i"] - 1, "pats": [conc.body(c) for c in e["p"]]}
+        ce = {"kind": "files", "i": e["i"] - 1, "pats": conc.pats(e["p"])}
     elif e["kind"] == "copy":
         ce = {"kind": "copy", "i": e["i"] - 1, "copy": conc.text(e["c"], "c%d" % ek)}
     elif e["kind"] == "lic":
@@ -684,10 +766,16 @@ def unpack(s):
     return json.loads(zlib.decompress(base64.b64decode(s)).decode()) if s else []
 
 
-def _doc_run(case, crc, seed, k, diag=None):
+def ks_for(crc, nconc):
+    """concretizations of one CASE: 0 canonical, 1..nconc-1 sampled, and for every STRESS_EVERY-th
+    case one size-stressed concretization (number nconc)"""
+    return list(range(nconc)) + ([nconc] if crc % STRESS_EVERY == 0 else [])
+
+
+def _doc_run(case, crc, seed, k, diag=None, nconc=None):
     """one execution of a document CASE: concretization k of the run's seed"""
     rng = random.Random("%s-%d-%d" % (seed, crc, k))
-    conc = Conc(rng, canonical=(k == 0))
+    conc = Conc(rng, canonical=(k == 0), stress=(nconc is not None and k == nconc))
     form = "lines" if k == 0 else rng.choice(["lines", "lines", "file"])
     dumpform = "str" if k == 0 else rng.choice(["str", "str", "file"])
     msg, o = check_doc_case(case, conc, form, dumpform, diag)
@@ -698,9 +786,9 @@ _PROC_HIST = []       # [kind, nconc, CASE line] of everything this (pool) proce
 HIST_MAX = 3000
 
 
-def _codec_run(case, crc, seed, k, diag=None):
+def _codec_run(case, crc, seed, k, diag=None, nconc=None):
     rng = random.Random("%s-%d-%d" % (seed, crc, k))
-    conc = Conc(rng, canonical=(k == 0))
+    conc = Conc(rng, canonical=(k == 0), stress=(nconc is not None and k == nconc))
     msg, lines = check_codec_case(case, conc, diag)
     return msg, conc
 
@@ -723,17 +811,19 @@ def _worker(args):
     for bi, body in enumerate(bodies):
         case = json.loads(body)
         crc = zlib.crc32(body.encode())
-        for k in range(nconc):
+        for k in ks_for(crc, nconc):
             diag = [] if len(drift) < 5 else None
             n += 1
             if kind == "codec":
-                msg, conc = _codec_run(case, crc, seed, k, diag)
+                msg, conc = _codec_run(case, crc, seed, k, diag, nconc)
                 if msg:
                     viol.append(({"kind": "codec", "case": case, "conc": conc.c}, msg))
                 for s in case["l"]:
                     stats[s] = stats.get(s, 0) + 1
+                if k == nconc:
+                    stats["size_stressed_lists"] = stats.get("size_stressed_lists", 0) + 1
             else:
-                msg, o, me = _doc_run(case, crc, seed, k, diag)
+                msg, o, me = _doc_run(case, crc, seed, k, diag, nconc)
                 if msg or prev is not None:
                     msg2 = prev.recheck() if prev is not None else None    # the previous objects must not have changed
                     if msg or msg2:
@@ -746,6 +836,8 @@ def _worker(args):
                 prev = Live(o) if o["_live"] is not None else None
                 for p in case["ops"]:
                     stats["add_" + p["k"]] = stats.get("add_" + p["k"], 0) + 1
+                if k == nconc:
+                    stats["size_stressed_documents"] = stats.get("size_stressed_documents", 0) + 1
                 if case.get("edit"):
                     ek = "edit_" + case["edit"][0]["kind"]
                     stats[ek] = stats.get(ek, 0) + 1
@@ -906,6 +998,118 @@ def random_doc(rng):
             op["text"] = "\n".join(tl)
     start = "api" if rng.random() < 0.6 else "parsed"
     return hdr, ops, start, rng.choice(["lines", "lines", "file"]), rng.choice(["str", "str", "file"])
+
+
+# ---- size-stressed documents and line lists (notes/SIZE_STRESS.md)
+
+def sized_lines(rng, n, maxlen=80, pool=None):
+    """an in-domain text of n lines (classes E I I2 ID P, last line not empty), line lengths heavy-tailed"""
+    out = []
+    for j in range(n):
+        sym = rng.choice(SYMS_IN)
+        if sym == "E" and j == n - 1:
+            sym = "P"
+        if sym == "E":
+            out.append("")
+        elif sym == "ID":
+            out.append(rng.choice(WS1 + WS2) + ".")
+        else:
+            body = sized_text(rng, size_len(rng, maxlen))
+            out.append({"P": "", "I": rng.choice(WS1), "I2": rng.choice(WS2)}[sym] + body)
+    return out
+
+
+def sized_copy(rng, n, maxlen=80):
+    return "\n".join([sized_text(rng, size_len(rng, maxlen))]
+                     + [rng.choice(WS1 + WS2) + sized_text(rng, size_len(rng, maxlen)) for _ in range(n - 1)])
+
+
+def small_para(rng, kind):
+    if kind == "Files":
+        return {"kind": "Files", "pats": [rng.choice(PAT_POOL)], "copy": rng.choice(COPY_POOL),
+                "syn": rng.choice(SYN_POOL), "text": random_text(rng, 2)}
+    return {"kind": "License", "pats": [], "copy": None, "syn": rng.choice(SYN_POOL), "text": random_text(rng, 2)}
+
+
+def files_para(rng, pats, copy=None, syn=None, text=""):
+    return {"kind": "Files", "pats": pats, "copy": copy if copy is not None else rng.choice(COPY_POOL),
+            "syn": syn if syn is not None else rng.choice(SYN_POOL), "text": text}
+
+
+def size_suite(rng, thorough):
+    """the extreme documents executed in EVERY run (payload characters seeded)"""
+    H0 = {"name": None, "uc": [], "lic": None}
+    docs = []
+
+    def add(hdr, ops, start="api", reqs=()):
+        docs.append((hdr, ops, start, rng.choice(["lines", "file"]), rng.choice(["str", "file"]), list(reqs)))
+    # many patterns; joined length of the list at 72 / 80 / 256 / 4096
+    add(H0, [files_para(rng, [sized_pattern(rng, rng.choice([3, 8, 17])) for _ in range(200)]),
+             files_para(rng, [sized_pattern(rng, rng.choice([2, 9])) for _ in range(101)])],
+        reqs=[{"kind": "files", "r": 0.1, "pats": [sized_pattern(rng, 7) for _ in range(257)]}])
+    add(H0, [files_para(rng, [sized_pattern(rng, n) for n in split_total(rng, t, rng.choice([2, 3, 5, 9]))])
+             for t in (71, 72, 73, 74, 79, 80, 81, 255, 256, 257, 4095, 4096, 4097)], start="parsed")
+    # single long patterns with hyphens
+    add(H0, [files_para(rng, [sized_pattern(rng, n)]) for n in (71, 72, 73, 80, 81, 255, 256, 257, 1025, 4097)]
+        + [files_para(rng, [sized_pattern(rng, 40), sized_pattern(rng, 45), sized_pattern(rng, 90)])])
+    # long texts: number of lines
+    add(H0, [{"kind": "License", "pats": [], "copy": None, "syn": "GPL-2+", "text": "\n".join(sized_lines(rng, 1000, 40))},
+             files_para(rng, ["*"], copy=sized_copy(rng, 1000, 30), text="\n".join(sized_lines(rng, 257, 33)))],
+        reqs=[{"kind": "lic", "r": 0.9, "keep_syn": True, "syn": "x", "text": "\n".join(sized_lines(rng, 513, 20))}])
+    add(H0, [files_para(rng, ["a-b/*"], copy=sized_copy(rng, n, 20), text="\n".join(sized_lines(rng, n, 20)))
+             for n in (9, 10, 11, 16, 17, 31, 32, 33, 99, 100, 101, 255, 256)], start="parsed")
+    # long lines / synopsis
+    add({"name": sized_text(rng, 257), "uc": [sized_text(rng, 80), sized_text(rng, 256)],
+         "lic": [sized_text(rng, 256), "\n".join(sized_lines(rng, 3, 4097))]},
+        [files_para(rng, ["*"], copy=sized_copy(rng, 3, 8193), syn=sized_text(rng, n), text="\n".join(sized_lines(rng, 4, m)))
+         for n, m in ((71, 72), (72, 73), (73, 80), (80, 81), (81, 256), (256, 1024), (1024, 4096), (4097, 8192))])
+    # many paragraphs, many header entries
+    kinds = ["Files" if rng.random() < 0.6 else "License" for _ in range(200)]
+    add({"name": None, "uc": [sized_text(rng, size_len(rng, 80)) for _ in range(100)], "lic": None},
+        [small_para(rng, k) for k in kinds],
+        reqs=[{"kind": "add", "para": small_para(rng, "Files")}, {"kind": "add", "para": small_para(rng, "License")}])
+    add(H0, [small_para(rng, rng.choice(["Files", "License"])) for _ in range(101)], start="parsed")
+    if thorough:
+        add(H0, [small_para(rng, rng.choice(["Files", "License"])) for _ in range(1000)])
+        add(H0, [files_para(rng, [sized_pattern(rng, 5) for _ in range(1001)], text="\n".join(sized_lines(rng, 3, 65537)))])
+    return docs
+
+
+def stressed_doc(rng, thorough):
+    """a random document with one size dimension pushed to a boundary value"""
+    hdr, ops, start, form, dumpform = random_doc(rng)
+    mode = rng.choice(["npats", "patlen", "joined", "nlines", "linelen", "synlen", "nparas", "ncopy"])
+    cap_n = 257 if thorough else 101
+    cap_l = 4097 if thorough else 1025
+    count = rng.choice([c for c in COUNTS if 1 <= c <= cap_n])
+    if not ops or mode == "nparas":
+        ops = ops + [small_para(rng, rng.choice(["Files", "License"])) for _ in range(count)]
+    files = [p for p in ops if p["kind"] == "Files"]
+    tgt = rng.choice(ops)
+    if mode == "npats" and files:
+        rng.choice(files)["pats"] = [sized_pattern(rng, size_len(rng, 17)) for _ in range(count)]
+    elif mode == "patlen" and files:
+        rng.choice(files)["pats"] = [sized_pattern(rng, size_len(rng, cap_l)) for _ in range(rng.choice([1, 2, 3]))]
+    elif mode == "joined" and files:
+        rng.choice(files)["pats"] = [sized_pattern(rng, n) for n in split_total(rng, rng.choice(JOINED), rng.choice([1, 2, 3, 5, 9, 17]))]
+    elif mode == "nlines":
+        tgt["text"] = "\n".join(sized_lines(rng, count, 33))
+    elif mode == "linelen":
+        tgt["text"] = "\n".join(sized_lines(rng, rng.choice([1, 2, 3, 5]), cap_l))
+    elif mode == "synlen":
+        tgt["syn"] = sized_text(rng, size_len(rng, cap_l))
+    elif mode == "ncopy" and files:
+        rng.choice(files)["copy"] = sized_copy(rng, count, 33)
+    return hdr, ops, start, form, dumpform
+
+
+def codec_suite(rng, thorough):
+    lists = [sized_lines(rng, 1000, 30), sized_lines(rng, 257, 20), sized_lines(rng, 3, 4097), sized_lines(rng, 2, 8193),
+             [sized_text(rng, n) for n in (71, 72, 73, 79, 80, 81, 255, 256, 257, 1023, 1024, 1025)],
+             ["x", " " + sized_text(rng, 65536), "", "\t" + sized_text(rng, 65537)]]
+    if thorough:
+        lists.append(sized_lines(rng, 10000, 10))
+    return lists
 
 
 def abs_lic(syn, text, it):
@@ -1169,9 +1373,19 @@ def run_traces(ctx, quick):
     nedits = {}
     prev = None
     leaks = []
+    suite = size_suite(rng, not quick)
+    csuite = codec_suite(rng, not quick)
+    nstress = 0
     for n in range(ndoc):
-        hdr, ops, start, form, dumpform = random_doc(rng)
-        reqs = random_edit_requests(rng)
+        if n < len(suite):
+            hdr, ops, start, form, dumpform, reqs = suite[n]
+        elif rng.random() < (0.06 if quick else 0.1):
+            hdr, ops, start, form, dumpform = stressed_doc(rng, not quick)
+            reqs = random_edit_requests(rng)
+            nstress += 1
+        else:
+            hdr, ops, start, form, dumpform = random_doc(rng)
+            reqs = random_edit_requests(rng)
         tr, o = record_doc(hdr, ops, start, form, dumpform, reqs)
         traces.append(tr)
         me = {"kind": "trace-doc", "hdr": hdr, "ops": ops, "start": start, "form": form, "dumpform": dumpform, "reqs": reqs}
@@ -1190,7 +1404,8 @@ def run_traces(ctx, quick):
     prev = None
     for i in range(ncodec):
         dom = i % 5 != 0
-        lines = random_lines(rng, dom)
+        lines = csuite[i] if i < len(csuite) else random_lines(rng, dom)
+        dom = dom or i < len(csuite)
         tr, o = record_codec(lines)
         tr["_dom"] = dom
         traces.append(tr)
@@ -1210,11 +1425,11 @@ def run_traces(ctx, quick):
     ctx.extra["per_action_counts"].update({"trace_edit_" + k: v for k, v in nedits.items()})
     ctx.extra["traces_rejected"] = len(rejected)
     ctx.extra["control_traces"] = ncontrols
-    m = metas[3]
+    m = metas[len(suite) + 3]
     ctx.sample("recorded document trace: %s" % json.dumps({"start": m[3], "ops": [p["kind"] for p in m[2]],
                                                            "edits": [e["kind"] for e in (m[6]["edits"] or [])],
                                                            "dump": (m[6]["dump"] or "")[:300]}, ensure_ascii=False))
-    m = metas[ndoc + 7]
+    m = metas[ndoc + len(csuite) + 7]
     ctx.sample("recorded codec trace: %r -> %r -> %r" % (m[1], m[2]["enc"], m[2]["out"]))
     seen = set()
     for tid, what in sorted(notes.items()):
@@ -1241,6 +1456,11 @@ def run_traces(ctx, quick):
         for n, msg in leaks[:1]:
             ctx.violation(dict(metas[n][7], kind="trace-pair", history=pack([x[7] for x in metas[max(0, n - HISTORY):n]])), msg)
     ctx.extra["earlier_documents_rechecked"] = ndoc - 1
+    ctx.extra["size_stress"] = {"suite_documents": len(suite), "suite_line_lists": len(csuite), "random_stressed_documents": nstress,
+                                "max_paragraphs": max(len(m[2]) for m in metas if m[0] == "doc"),
+                                "max_patterns": max([len(p["pats"]) for m in metas if m[0] == "doc" for p in m[2]] or [0]),
+                                "max_text_lines": max([p["text"].count("\n") + 1 for m in metas if m[0] == "doc" for p in m[2]] or [0]),
+                                "max_line_length": max([len(x) for m in metas if m[0] == "codec" for x in m[1]] or [0])}
 
 
 def unspecified_zone(ctx):
@@ -1353,14 +1573,15 @@ def _replay_doc_sequence(case):
     seed, nconc = case.get("seed", 0), case.get("nconc", 1)
     seq = []
     for kind, nc, body in unpack(case.get("history", "")):
-        seq += [(kind, json.loads(body), zlib.crc32(body.encode()), k) for k in range(nc)]
-    seq += [("doc", case["case"], case["crc"], k) for k in range(case["k"] + 1)]
+        crc = zlib.crc32(body.encode())
+        seq += [(kind, json.loads(body), crc, k, nc) for k in ks_for(crc, nc)]
+    seq += [("doc", case["case"], case["crc"], k, nconc) for k in ks_for(case["crc"], nconc) if k <= case["k"]]
     prev = None
-    for j, (kind, c, crc, k) in enumerate(seq):
+    for j, (kind, c, crc, k, nc) in enumerate(seq):
         if kind == "codec":
-            _codec_run(c, crc, seed, k)
+            _codec_run(c, crc, seed, k, None, nc)
             continue
-        msg, o, _ = _doc_run(c, crc, seed, k)
+        msg, o, _ = _doc_run(c, crc, seed, k, None, nc)
         if j == len(seq) - 1:
             return msg, (prev.recheck() if prev is not None else None)
         prev = Live(o) if o["_live"] is not None else None
